@@ -395,6 +395,89 @@ def pe_fn(plus, nsec):
 
 
 
+# ------------------------------------------------------------------ Mach-O header + one segment command
+MO_HDR = {"magic": (0, 4, 0, 4), "cputype": (4, 4, 4, 4), "cpusubtype": (8, 4, 8, 4), "filetype": (12, 4, 12, 4), "ncmds": (16, 4, 16, 4), "sizeofcmds": (20, 4, 20, 4), "flags": (24, 4, 24, 4)}
+MO_SEG = {"cmd": (0, 4, 0, 4), "cmdsize": (4, 4, 4, 4), "vmaddr": (24, 4, 24, 8), "vmsize": (28, 4, 32, 8), "fileoffset": (32, 4, 40, 8), "filesize": (36, 4, 48, 8),
+          "maxprot": (40, 4, 56, 4), "initprot": (44, 4, 60, 4), "nsects": (48, 4, 64, 4), "flags": (52, 4, 68, 4)}
+MO_SECT = {"addr": (32, 4, 32, 8), "size_": (36, 4, 40, 8), "offset": (40, 4, 48, 4), "align": (44, 4, 52, 4), "reloff": (48, 4, 56, 4), "nreloc": (52, 4, 60, 4),
+           "reserved1": (60, 4, 68, 4), "reserved2": (64, 4, 72, 4)}
+MO_SIZES = {False: (28, 56, 68), True: (32, 72, 80)}  # header, segment command, section
+
+
+def macho_fn(x64, nsects):
+    from amoco.system import macho as MO
+    hsz, segsz, sectsz = MO_SIZES[x64]
+    cmdsize = segsz + nsects * sectsz
+    n = hsz + cmdsize
+
+    def fn(E):
+        content = list(E.sym_bytes("b", n))
+
+        def fix(off, bs):
+            for k, v in enumerate(bs):
+                E.assume(symx.zterm(content[off + k], 8) == v)
+                content[off + k] = v
+        fix(0, (0xFEEDFACF if x64 else 0xFEEDFACE).to_bytes(4, "little"))
+        fix(4, (0x01000007 if x64 else 7).to_bytes(4, "little"))
+        fix(12, (2).to_bytes(4, "little"))
+        fix(16, (1).to_bytes(4, "little"))
+        fix(20, cmdsize.to_bytes(4, "little"))
+        fix(hsz, (0x19 if x64 else 1).to_bytes(4, "little"))
+        fix(hsz + 4, cmdsize.to_bytes(4, "little"))
+        fix(hsz + 8, b"__TEXT".ljust(16, b"\0"))
+        ns = MO_SEG["nsects"]
+        fix(hsz + (ns[2] if x64 else ns[0]), nsects.to_bytes(4, "little"))
+        for k in range(nsects):
+            b0 = hsz + segsz + k * sectsz
+            fix(b0, b"__text".ljust(16, b"\0") + b"__TEXT".ljust(16, b"\0"))
+        f = SC.DataIO(symx.SymFile(content))
+        p = MO.MachO(f)
+        for name, spec in MO_HDR.items():
+            # cpu_type_t / cpu_subtype_t are C ints: the reported value is compared as a 32-bit pattern
+            E.prove(symx.zterm(getattr(p.header, name), 32) == symx.zterm(fld(content, 0, spec, x64, False), 32), "mach_header field %s" % name)
+        E.prove(len(p.cmds) == 1, "number of load commands %d, file has 1" % len(p.cmds))
+        c0 = p.cmds[0]
+        for name, spec in MO_SEG.items():
+            want = fld(content, hsz, spec, x64, False)
+            got = getattr(c0, name)
+            if name in ("maxprot", "initprot"):
+                E.prove(symx.zterm(got, 32) == symx.zterm(want, 32), "segment command field %s" % name)
+            else:
+                E.prove(eq(got, want), "segment command field %s" % name)
+        E.prove(len(c0.sections) == nsects, "number of sections %d, file has %d" % (len(c0.sections), nsects))
+        for k, S in enumerate(c0.sections[:nsects]):
+            for name, spec in MO_SECT.items():
+                E.prove(eq(getattr(S, name), fld(content, hsz + segsz + k * sectsz, spec, x64, False)), "section %d field %s" % (k, name))
+        # address -> (segment or section, offset, base) and -> file offset
+        W = 72
+        tgt = E.sym("target", 64 if x64 else 32)
+        at = symx.zterm(tgt, W)
+        va = symx.zterm(fld(content, hsz, MO_SEG["vmaddr"], x64, False), W)
+        vs = symx.zterm(fld(content, hsz, MO_SEG["vmsize"], x64, False), W)
+        fo = symx.zterm(fld(content, hsz, MO_SEG["fileoffset"], x64, False), W)
+        in_seg = z3.And(z3.ULE(va, at), z3.ULT(at, va + vs))
+        want_off, want_file, in_sect = at - va, fo + (at - va), z3.BoolVal(False)
+        for k in reversed(range(nsects)):
+            b0 = hsz + segsz + k * sectsz
+            sa = symx.zterm(fld(content, b0, MO_SECT["addr"], x64, False), W)
+            ss = symx.zterm(fld(content, b0, MO_SECT["size_"], x64, False), W)
+            so = symx.zterm(fld(content, b0, MO_SECT["offset"], x64, False), W)
+            hit = z3.And(in_seg, z3.ULE(sa, at), z3.ULT(at, sa + ss))
+            in_sect = z3.Or(in_sect, hit)
+            want_off = z3.If(hit, at - sa, want_off)
+            want_file = z3.If(hit, so + (at - sa), want_file)
+        got = p.getinfo(tgt)
+        if got[0] is None:
+            E.prove(z3.Not(in_seg), "getinfo(target) finds nothing although the segment's [vmaddr, vmaddr+vmsize) holds the address")
+        else:
+            E.prove(z3.And(in_seg, symx.zterm(got[1], W) == want_off), "getinfo(target) offset != target - base of the innermost segment/section holding it")
+            E.prove(symx.zterm(p.getfileoffset(tgt), W) == want_file, "getfileoffset(target) != file offset of the innermost segment/section + (target - its base)")
+        return n
+
+    return fn, n
+
+
+
 def items(tier, seed):
     out = []
     cases = [(x64, be, nph, nsh) for x64 in (False, True) for be in (False, True) for nph in (0, 1, 2) for nsh in (0, 1, 2)]
@@ -411,6 +494,8 @@ def items(tier, seed):
         out.append(("elf",) + c + (tier,))
     for plus, nsec in (((False, 1), (True, 2)) if tier == "quick" else ((False, 0), (False, 1), (False, 2), (True, 0), (True, 1), (True, 2))):
         out.append(("pe", plus, nsec, tier))
+    for x64, nsects in (((False, 1), (True, 1)) if tier == "quick" else ((False, 0), (False, 1), (False, 2), (True, 0), (True, 1), (True, 2))):
+        out.append(("macho", x64, nsects, tier))
     for nd in ((0, 2) if tier == "quick" else (0, 1, 2, 4)):
         out.append(("hex", nd, tier))
     for st, nd in (((1, 2), (9, 0), (3, 1)) if tier == "quick" else ((0, 2), (1, 0), (1, 2), (2, 1), (3, 2), (5, 0), (7, 0), (8, 0), (9, 0))):
@@ -433,6 +518,11 @@ def run_item(item):
     elif kind == "pe":
         fn, n = pe_fn(item[1], item[2])
         label = "pe32%s:sec%d" % ("+" if item[1] else "", item[2])
+        caps = dict(index=None, seek=4, hash=8, format=4, str=4)
+        pfx = "b"
+    elif kind == "macho":
+        fn, n = macho_fn(item[1], item[2])
+        label = "macho%d:sect%d" % (64 if item[1] else 32, item[2])
         caps = dict(index=None, seek=4, hash=8, format=4, str=4)
         pfx = "b"
     elif kind == "hex":
@@ -496,6 +586,8 @@ def replay(rep):
         fn, n = elf_fn(item[1], item[2], item[3], item[4], item[5] if len(item) > 6 else None)
     elif kind == "pe":
         fn, n = pe_fn(item[1], item[2])
+    elif kind == "macho":
+        fn, n = macho_fn(item[1], item[2])
     elif kind == "hex":
         fn, n = hexline_fn(item[1])
     else:
